@@ -40,6 +40,12 @@ def pipe_worker(tag, rec):
         two = 'twopl' in rec['given']
         na = 3 if rec['mp'] == 'spa' else 2
         for fi, text in enumerate(r['files']):
+            if rec.get('_loadonly'):
+                # files whose admissible matchings TLC cannot enumerate: loading only (the solver's reading agrees with the file)
+                t = pipedrive.record_run(text, na, two, loadonly=True)
+                t['meta'] = {'key': key, 'seed': sd, 'file': fi, 'mp': rec['mp'], 'opts': {'load only': True}}
+                traces.append(t)
+                continue
             for j, osx in enumerate(optsets(two)):
                 if rec.get('_nobf') and osx.get('bf'):
                     continue          # (projects+1)^students assignments: brute force only on small instances
@@ -62,9 +68,10 @@ def main(tier, seed):
         def on_result(info):
             traces.extend(info['traces'])
 
-        def mk_flt(nseeds, every, nobf=False):
+        def mk_flt(nseeds, every, nobf=False, loadonly=False):
             def flt(tag, rec):
                 rec['_nobf'] = nobf
+                rec['_loadonly'] = loadonly
                 k = genprops.key_of(rec)
                 if k in seen or not rec['accept']:
                     return False
@@ -81,12 +88,15 @@ def main(tier, seed):
         plans.append(('ten first-side agents, one-entry lists, LP only', 1, False, 1, 6 if q else 1, {'n1': {10}, 'n2': {3}, 'n3': {2}}))
         if not q:
             plans.append(('counts <= 4', 4, False, 1, 12, None))
+        # long lists (30 rankers on a second-side list; first-side lists of 28-30 entries): loading only
+        plans.append(('LOAD ONLY long second-side lists (30 first-side agents)', 2, False, 1, 3 if q else 1, {'n1': {30}, 'n2': {2}, 'n3': {1}}))
+        plans.append(('LOAD ONLY long first-side lists (28-30 of 30)', 30, False, 1, 6 if q else 1, {'n1': {2}, 'n2': {30}, 'n3': {2}}))
         for label, maxn, rich, nseeds, every, counts in plans:
             res = engine.tlc_replay(rep, pool, 'MC_Gen', pipe_worker,
-                                    consts=dict(MaxN=maxn, MinLen=1, NumInsts={1, 2}, Perturb=False, Generate=False,
+                                    consts=dict(MaxN=maxn, MinLen=28 if maxn == 30 else 1, NumInsts={1, 2}, Perturb=False, Generate=False,
                                                 TypesUsed={'ha', 'sm', 'hr', 'spa'}, Rich=rich, Spells={'short'}, **genprops.count_sets(maxn, counts)),
                                     spec='MSpec', invariants=['ParserOK', 'FamilySound', 'ExportArgs'], label=label,
-                                    on_result=on_result, export_filter=mk_flt(nseeds, every, nobf=counts is not None), timeout=3000)
+                                    on_result=on_result, export_filter=mk_flt(nseeds, every, nobf=counts is not None, loadonly=label.startswith('LOAD ONLY')), timeout=3000)
             rep.notes.append('%s: %d legal argument vectors, every %d-th driven through generator and solver' % (label, res['exports'], every))
     finally:
         pool.close()
